@@ -11,7 +11,7 @@
    numbers, [mem x q] membership in a range set (proofs/RangeSetP.v). *)
 From AQ Require Import lib.Base model.Codec model.Varint model.RangeSet model.AckFrame gen.C12Consts model.AckQueue
   proofs.RangeSetP proofs.AckQueueP proofs.AckQueueP2 proofs.AckQueueP3.
-From AQ Require Import gen.C12RecvOrder model.RecvAck proofs.RecvAckP proofs.RecvAckT.
+From AQ Require Import gen.C12RecvOrder model.RecvAck proofs.RecvAckP proofs.RecvAckT proofs.RecvAckD.
 
 (* ack_sound, queue: the ack_queue only ever holds recorded packet numbers *)
 Theorem ack_sound_queue : forall a s, reach a s -> forall x, mem x (aq s) -> In x (rcvd s).
@@ -349,3 +349,48 @@ Theorem ack_timely_composed : forall dmax c now i L t ops u delay room blocked, 
         owed (spc c'' i) = [] /\ ack_at (spc c'' i) = None)).
 Proof. exact ack_timely_composed_l. Qed.
 Print Assumptions ack_timely_composed.
+
+(* ---- the driver discipline on the COMPOSED model (proofs/RecvAckD.v): ack_timely_cap lifted.
+   [creach_d dmax c now hot]: timed runs as [creach_t] but with NO premise on the number of queued ranges; instead, per
+   space, the sans-IO discipline: [hot i] = a packet of space i was handed to the connection since the last send of space i
+   whose packet had room for the ACK frame (ack_capacity (cap_ranges queue) <= room, any pacer verdict); a packet of space
+   i may be handed over only while space i is cold.  Between a packet and "its" send anything else may happen: packets and
+   sends of the other spaces (coalesced datagrams), sends of space i without room, completions, discards, close().
+   As for ack_timely_cap the statements are about a tree with docs/C12-fix-2.patch (flags probed from the source). *)
+
+(* an owed packet is never forgotten by the cap: still queued, timer armed within the bound, among the ranges the cap
+   keeps; in a cold space fewer than MAX_ACK_RANGES ranges are queued *)
+Theorem ack_timely_cap_composed : forall dmax c now h i L t, CAP_ACK_NOW = true -> PACING_LE = true ->
+  creach_d dmax c now h -> disc (spc c i) = false -> In (L, t) (owed (spc c i)) ->
+  mem L (aq (spc c i)) /\ (exists x, ack_at (spc c i) = Some x /\ x <= t + dmax) /\
+  (closing (spc c i) = false -> mem L (cap_ranges (aq (spc c i))) /\
+                                (h i = false -> Zlen (aq (spc c i)) <= MAX_ACK_RANGES - 1)).
+Proof. exact ack_timely_cap_composed_l. Qed.
+Print Assumptions ack_timely_cap_composed.
+
+(* the due send (application space: u >= ack_at, ANY pacer verdict; Initial / Handshake: any time) with room for the capped
+   queue writes a frame that covers every owed packet *)
+Theorem ack_timely_cap_send_composed : forall dmax c now h i L t0 x u delay room blocked,
+  CAP_ACK_NOW = true -> PACING_LE = true ->
+  creach_d dmax c now h -> closing (spc c i) = false -> disc (spc c i) = false -> In (L, t0) (owed (spc c i)) ->
+  ack_at (spc c i) = Some x -> now <= u -> (i = SApp -> x <= u) ->
+  ack_capacity (cap_ranges (aq (spc c i))) <= room -> 0 <= delay < 2 ^ 62 ->
+  exists bytes c', cstep c (CSend i u delay room blocked) = (CSent (SFrame bytes (cap_ranges (aq (spc c i)))), c') /\
+    mem L (cap_ranges (aq (spc c i))) /\ x <= t0 + dmax /\ owed (spc c' i) = [] /\ ack_at (spc c' i) = None.
+Proof. exact ack_timely_cap_send_composed_l. Qed.
+Print Assumptions ack_timely_cap_send_composed.
+
+(* the sentence on whole disciplined runs: ack_timely_composed without the range-count premise and without the pacer
+   premise *)
+Theorem ack_timely_cap_run_composed : forall dmax c now h i L t ops u delay room blocked,
+  CAP_ACK_NOW = true -> PACING_LE = true ->
+  creach_d dmax c now h -> In (L, t) (owed (spc c i)) -> crun_d dmax c now h ops ->
+  let c' := crun c ops in
+  acked_in i L c ops \/ In CReinit ops \/ disc (spc c' i) = true \/
+  (mem L (aq (spc c' i)) /\ exists x, ack_at (spc c' i) = Some x /\ x <= t + dmax /\
+     (closing (spc c' i) = false -> clock_after now ops <= u -> ack_capacity (cap_ranges (aq (spc c' i))) <= room ->
+      0 <= delay < 2 ^ 62 -> (i = SApp -> x <= u) ->
+      exists bytes c'', cstep c' (CSend i u delay room blocked) = (CSent (SFrame bytes (cap_ranges (aq (spc c' i)))), c'') /\
+        mem L (cap_ranges (aq (spc c' i))) /\ owed (spc c'' i) = [] /\ ack_at (spc c'' i) = None)).
+Proof. exact ack_timely_cap_run_composed_l. Qed.
+Print Assumptions ack_timely_cap_run_composed.
